@@ -220,7 +220,9 @@ class C17(core.Property):
     quick_cases = 2400
     thorough_cases = 30000
     case_timeout_s = 20
-    rule = ("families pb / chain / ml in rotation: 1-8 client ops (16 in thorough) on 1-3 keys, write values unique per run, "
+    rule = ("families pb / chain / ml in rotation: 1-8 client ops (16 in thorough) on 1-3 keys, write values unique per run or "
+            "(pb, chain: one case in three) drawn from a palette of 2-3 values so that a key sees v, w, v again; multi-leader "
+            "topologies mesh / star (leader 0 hub) / line (leaders with different peer sets), spokes and ends writing more; "
             "op times clustered inside one store/network latency; 0-3 backups x ASYNC/SEMI_SYNC/SYNC, chains of 2-4 nodes with "
             "and without CRAQ, 2-4 leaders with every resolver of conflict_resolver.py (LastWriterWins, VectorClockMerge with and "
             "without merge_fn, CustomResolver; merging ones with set-union and max joins, so the merge differs from both inputs), "
@@ -245,6 +247,12 @@ class C17(core.Property):
         "the model rejects schedules that resume primary/head puts out of FIFO order",
         "multi-leader timestamps are the simulated clock; network latencies are >= 1 ns, so causally later versions carry later timestamps",
         "ReplicatedStore (sequential same-order puts to every replica, no messages) is not modelled",
+        "with a value palette (repeated values) a value no longer identifies its write: the ack / read clauses then accept the value "
+        "of any later write carrying the same value (weaker, still sound); the convergence clause is unaffected",
+        "star / line topologies (MLT model, correspondence checked for every resolver): the convergence clause is judged for "
+        "resolvers that return one of their inputs when the run is quiescent and Spec.gossipComplete holds; for merging "
+        "resolvers off the mesh no convergence claim is made (dominance drops items, the merge is not associative across partial "
+        "views); run-level convergence theorems are for the mesh (ML, MLM)",
         "merging resolvers: 'anti-entropy having run' is read as Spec.gossipComplete — after the last client-write / Replicate "
         "handler step, the AntiEntropyRequests alone (sender state at the tick, merged when the receiver's handler finishes) carry "
         "every leader's state to every leader; the convergence clause of a merging-resolver run is judged only then (delivering all "
@@ -318,8 +326,9 @@ class C17(core.Property):
             pool = [1, 2, 500_000, MS, MS + 1, 2 * MS, 50 * MS]
         return [rng.choice(pool) for _ in range(n)]
 
-    def gen_ops(self, rng, nw, nk, nodes_w, nodes_r, p_read=0.3):
-        """client ops at times that cluster (several writes inside one store/network latency)"""
+    def gen_ops(self, rng, nw, nk, nodes_w, nodes_r, p_read=0.3, palette=None):
+        """client ops at times that cluster (several writes inside one store/network latency); values are
+        unique per run, or (`palette`) drawn from a few values so that one key sees v, w, v again"""
         ops, t = [], MS
         val = 1
         for _ in range(nw):
@@ -328,7 +337,7 @@ class C17(core.Property):
             if rng.random() < p_read and nodes_r:
                 ops.append([t, "r", rng.choice(nodes_r), rng.randrange(nk)])
             else:
-                ops.append([t, "w", rng.choice(nodes_w), rng.randrange(nk), val])
+                ops.append([t, "w", rng.choice(nodes_w), rng.randrange(nk), rng.choice(palette) if palette else val])
                 val += 1
         return ops
 
@@ -336,7 +345,12 @@ class C17(core.Property):
         nb = rng.choice([0, 1, 1, 2, 2, 3])
         nk = rng.choice([1, 1, 2, 3])
         nw = rng.choice([1, 2, 3, 4, 6, 8] + ([12, 16] if tier == "thorough" else []))
-        ops = self.gen_ops(rng, nw, nk, [0], list(range(nb + 1)))
+        # value palette: unique values, or two / three values that repeat (A-B-A on one key)
+        palette = rng.choice([None, None, None, [1, 2], [1, 2], [1, 2, 3]])
+        if palette:
+            nk = rng.choice([1, 1, 2])
+            nw = max(nw, 3)
+        ops = self.gen_ops(rng, nw, nk, [0], list(range(nb + 1)), palette=palette)
         # a late read on every node so that the final values are also observed through the API
         # node 0 is the primary; a slow disk is put on a backup
         wlats = gen_wlats(rng, nb + 1, list(range(1, nb + 1)) or [0])
@@ -350,7 +364,11 @@ class C17(core.Property):
         craq = rng.random() < 0.6
         nw = rng.choice([1, 2, 3, 4, 6, 8] + ([12, 16] if tier == "thorough" else []))
         wnodes = [0] * 12 + list(range(1, n))           # a few writes at non-head nodes (rejected)
-        ops = self.gen_ops(rng, nw, nk, wnodes, list(range(n)), p_read=0.4 if craq else 0.25)
+        palette = rng.choice([None, None, None, [1, 2], [1, 2, 3]])
+        if palette:
+            nk = rng.choice([1, 1, 2])
+            nw = max(nw, 3)
+        ops = self.gen_ops(rng, nw, nk, wnodes, list(range(n)), p_read=0.4 if craq else 0.25, palette=palette)
         # heterogeneous stores: the slow disk sits on a middle node when there is one, else on the tail
         wlats = gen_wlats(rng, n, list(range(1, n - 1)) or [n - 1])
         return {"family": "chain", "n": n, "craq": craq, "nk": nk,
@@ -363,7 +381,15 @@ class C17(core.Property):
         n = rng.choice([2, 2, 3, 3, 4])
         nk = rng.choice([1, 1, 2, 3])
         nw = rng.choice([1, 2, 3, 4, 6, 8] + ([12, 16] if tier == "thorough" else []))
-        ops = self.gen_ops(rng, nw, nk, list(range(n)), list(range(n)), p_read=0.15)
+        # peer topology: full mesh, or star (leader 0 is the hub) / line, where leaders have different
+        # peer sets (their vector-clock snapshots carry different id sets) and non-adjacent leaders
+        # learn each other's writes through anti-entropy only
+        topo = rng.choice(["mesh", "mesh", "mesh", "star", "star", "line"]) if n >= 3 else "mesh"
+        if topo != "mesh":
+            nk = rng.choice([1, 1, 2])
+            nw = max(nw, 2)
+        wn = list(range(n)) if topo == "mesh" else list(range(n)) + list(range(1, n)) * 2    # spokes / ends write more
+        ops = self.gen_ops(rng, nw, nk, wn, list(range(n)), p_read=0.15)
         # anti-entropy ticks: some in the middle of the writes, some after everything settled
         t_end = ops[-1][0]
         for _ in range(rng.choice([0, 1, 2, 3])):
@@ -372,7 +398,7 @@ class C17(core.Property):
         # every leader ticks at the same instant (requests cross), or slightly apart (exchanges
         # overlap), or a single leader ticks.  Peers are the node's own random.choice.
         t = t_end + 1000 * MS
-        for _ in range(rng.choice([0, 0, 1, 2, 3, 4, 6])):
+        for _ in range(rng.choice([0, 0, 1, 2, 3, 4, 6] if topo == "mesh" else [0, 2, 3, 4, 6, 8])):
             style = rng.random()
             if style < 0.45:
                 for i in range(n):
@@ -386,7 +412,7 @@ class C17(core.Property):
             t += 600 * MS
         ops.sort(key=lambda o: o[0])
         wlats = gen_wlats(rng, n, list(range(n)))
-        return {"family": "ml", "n": n, "nk": nk, "resolver": rng.choice(self.ML_RESOLVERS),
+        return {"family": "ml", "n": n, "nk": nk, "topo": topo, "resolver": rng.choice(self.ML_RESOLVERS),
                 "wlat": wlats[0], "wlats": wlats, "rlat": rng.choice([1000, MS]),
                 "ops": ops, "lats": self.gen_lats(rng, 40), "rseed": rng.randrange(1000)}
 
@@ -563,6 +589,16 @@ class C17(core.Property):
         return "union" if r.endswith("-union") else ("max" if r.endswith("-max") else "lww")
 
     @staticmethod
+    def ml_peers(case, i):
+        """peer indices of leader i, in add_peers order (MLT.mesh / star / line)"""
+        n, topo = case["n"], case.get("topo", "mesh")
+        if topo == "star":
+            return [j for j in range(n) if j != 0] if i == 0 else [0]
+        if topo == "line":
+            return ([i - 1] if i > 0 else []) + ([i + 1] if i + 1 < n else [])
+        return [j for j in range(n) if j != i]
+
+    @staticmethod
     def ml_resolver(name):
         """every conflict resolver the library offers; the merging ones combine two concurrent versions
         into a third: joined value, later timestamp, greater writer id, pointwise-max vector clock"""
@@ -623,8 +659,8 @@ class C17(core.Property):
         nodes = [traced(LeaderNode, tr, i)(f"n{i}", store=stores[i], network=net,
                                           conflict_resolver=self.ml_resolver(case["resolver"]),
                                           anti_entropy_interval=100000.0) for i in range(n)]
-        for a in nodes:
-            a.add_peers([b for b in nodes if b is not a])
+        for i, a in enumerate(nodes):
+            a.add_peers([nodes[j] for j in self.ml_peers(case, i)])
             for b in nodes:
                 if a is not b:
                     link(a, b)
@@ -705,7 +741,7 @@ class C17(core.Property):
         if fam == "chain":
             return (f"chain {variant} {case['n']} {1 if case['craq'] else 0} {case['nk']}", body)
         if fam == "ml":
-            return (f"ml {variant} {case['n']} {case['nk']} {self.ml_kind(case)}", body)
+            return (f"ml {variant} {case['n']} {case['nk']} {self.ml_kind(case)} {case.get('topo', 'mesh')}", body)
         raise core.InfraError(f"unknown family {fam}")
 
     def _after_timeout(self, case, impl_out):
@@ -744,7 +780,7 @@ class C17(core.Property):
         if fam == "chain":
             return (f"judge-chain {case['n']} {1 if case['craq'] else 0}", list(impl_out))
         if fam == "ml":
-            return (f"judge-ml {case['n']} {0 if self.ml_kind(case) == 'lww' else 1}", list(impl_out))
+            return (f"judge-ml {case['n']} {0 if self.ml_kind(case) == 'lww' else 1} {1 if case.get('topo', 'mesh') == 'mesh' else 0}", list(impl_out))
         return None
 
     def extra_checks(self, ctx):
@@ -758,6 +794,7 @@ class C17(core.Property):
         blocks, cases = [], []
         for _ in range(n_cases):
             c = self.gen_ml(rng, ctx.tier)
+            c["topo"] = "mesh"
             if self.ml_kind(c) == "lww":
                 c["resolver"] = rng.choice(["vcm-union", "custom-union", "vcm-max", "custom-max"])
             out = core.run_impl_safe(self, c)
@@ -858,6 +895,9 @@ THEOREMS = [
     "HappyModel.C17.mlm_judge_convergence_silent",
     "HappyModel.C17.ml_judge_convergence_silent",
     "HappyModel.C17.ml_positive_latency_needed",
+    "HappyModel.C17.ml_dominates_asymm",
+    "HappyModel.C17.ml_dominates_trans",
+    "HappyModel.C17.mlt_disjoint_clocks_go_to_resolver",
 ]
 C17.theorems = THEOREMS
 PROPERTY = C17()
